@@ -141,6 +141,7 @@ func (zr zeroReader) Read(b []byte) (int, error) {
 // expandSparse grows the file with zero blocks of 4096
 // A small blocksize is chosen to aid in deduplication
 func (dm *DagModifier) expandSparse(size int64) error {
+	dm.dropReader()
 	r := io.LimitReader(zeroReader{}, size)
 	spl := chunker.NewSizeSplitter(r, 4096)
 	nnode, err := dm.appendData(dm.curNode, spl)
@@ -155,6 +156,15 @@ func (dm *DagModifier) expandSparse(size int64) error {
 	// Without this, writes after sparse expansion would go to the old node.
 	dm.curNode = nnode
 	return nil
+}
+
+// dropReader discards the open reader: it must not outlive a change of the
+// DAG it was opened on (the nodes are modified in place).
+func (dm *DagModifier) dropReader() {
+	if dm.read != nil {
+		dm.read = nil
+		dm.readCancel()
+	}
 }
 
 // Write continues writing to the dag at the current offset
@@ -773,6 +783,7 @@ func (dm *DagModifier) Truncate(size int64) error {
 	if size == realSize {
 		return nil
 	}
+	dm.dropReader()
 
 	// Truncate can also be used to expand the file
 	if size > realSize {
